@@ -206,6 +206,13 @@ def gen_display_cases(r: Run, keys):
             rng.shuffle(o)
             orders.append(o)
         groups.append(orders)
+    # the whole table in one composition (every symbol and every fixed isotope, 440-odd keys), in three orders
+    big = [(k, rng.choice(counts)) for k in allk if k[0] != "e*"]
+    orders = [big, list(reversed(big))]
+    sh = big[:]
+    rng.shuffle(sh)
+    orders.append(sh)
+    groups.append(orders)
     groups.append([[(("e*", 0), 1)]])
     return groups
 
